@@ -1,6 +1,6 @@
 (* C18 — property theorems (statements only; proofs live in Proofs*.v). *)
 From Coq Require Import List ZArith NArith QArith Bool.
-Require Import QV.C18.Model QV.C18.Spec QV.C18.Corr QV.C18.Proofs QV.C18.Proofs_frame_awg QV.C18.Proofs_frame_dac QV.C18.Proofs_obs QV.C18.Proofs_dev QV.C18.Proofs_perdev QV.C18.Proofs_perdev_dac QV.C18.Proofs_post QV.C18.Proofs_r5.
+Require Import QV.C18.Model QV.C18.Spec QV.C18.Corr QV.C18.Proofs QV.C18.Proofs_frame_awg QV.C18.Proofs_frame_dac QV.C18.Proofs_obs QV.C18.Proofs_dev QV.C18.Proofs_perdev QV.C18.Proofs_perdev_dac QV.C18.Proofs_post QV.C18.Proofs_r5 QV.C18.Heap QV.C18.Proofs_heap.
 Import ListNotations.
 
 (* Generator side of the routing invariant, for arbitrary finite histories of operations (calls that raise included)
@@ -419,3 +419,52 @@ Theorem C18_arm_awg_exact_example :
      = [Some 0%N; None; None].
 Proof. exact arm_exact_example. Qed.
 Print Assumptions C18_arm_awg_exact_example.
+
+(* ================================================================================================================ *)
+(* Round 6: clause S4 "... equal to the program's own windows".  Until now the windows a registration works with
+   (p_meas) were an input of the model; that they are the Loop object's own windows was tested only.  Heap.v models the
+   setup's per-object memory (_take_measurements: id()-keyed table, weak reference + identity test, `if windows` store)
+   on a heap with object death and address reuse.  For EVERY history of allocations, attachments, takes and deaths (the
+   weak reference callback may or may not run) _take_measurements returns, for a live object, exactly everything that was
+   ever attached to this very object (ghost list h_own, collected per name in order of first appearance) - however
+   often the setup has stripped it before and whatever a dead object at the same address left in the table. *)
+Theorem C18_take_own_windows : forall h o ob,
+  lookup o (live (hrun h)) = Some ob -> snd (take (hrun h) o) = collect (h_own ob).
+Proof. exact take_own_windows. Qed.
+Print Assumptions C18_take_own_windows.
+
+(* handing the very same object in again yields the same windows (the defect repaired by bc650d0) *)
+Theorem C18_take_twice : forall h o ob,
+  lookup o (live (hrun h)) = Some ob -> snd (take (fst (take (hrun h) o)) o) = snd (take (hrun h) o).
+Proof. exact take_twice. Qed.
+Print Assumptions C18_take_twice.
+
+(* composed with the routing model: in every history of the combined machine (heap events, every Model operation,
+   registrations of heap objects) a register_program call that reaches _take_measurements IS Model.register_program on
+   the object's own windows, and if it returns normally the record holds this object and its own windows (what the
+   acquisition devices hold relative to the record is dac_entry_ok of the S3/S4 theorems above). *)
+Theorem C18_register_own_windows : forall dm ch name o chans cb update order ob,
+  lookup o (live (fst (crun dm ch))) = Some ob ->
+  reaches_take (snd (crun dm ch)) chans cb = true ->
+  let own := collect (h_own ob) in
+  let res := register_program dm (snd (crun dm ch)) name {| p_tag := o; p_chans := chans; p_meas := own |} cb update order in
+  snd (cstep dm (crun dm ch) (CRegObj name o chans cb update order)) = fst res
+  /\ (snd res = None -> exists r, lookup name (regs (fst res)) = Some r /\ r_tag r = o /\ r_meas r = own).
+Proof. exact register_own_windows. Qed.
+Print Assumptions C18_register_own_windows.
+
+(* a call that does not reach _take_measurements raises without effect, whatever the measurements are *)
+Theorem C18_register_not_reached : forall dm st name o chans m cb update order,
+  reaches_take st chans cb = false ->
+  snd (register_program dm st name {| p_tag := o; p_chans := chans; p_meas := m |} cb update order) <> None
+  /\ fst (register_program dm st name {| p_tag := o; p_chans := chans; p_meas := m |} cb update order) = st.
+Proof. exact not_reached_raises. Qed.
+Print Assumptions C18_register_not_reached.
+
+(* non-vacuity: object 1 dies and leaves its table entry behind (no callback), object 2 is allocated at the same address,
+   gets windows of two names, is stripped by a take and gets a further window attached afterwards *)
+Theorem C18_take_own_windows_example :
+  exists ob, lookup 2%N (live (hrun heap_example)) = Some ob
+    /\ snd (take (hrun heap_example) 2) = [(7%N, ([3#1; 0#1], [1#1; 2#1])); (8%N, w3)].
+Proof. exact heap_example_ok. Qed.
+Print Assumptions C18_take_own_windows_example.
